@@ -96,8 +96,8 @@ def _case(draw):
         rw = draw(st.integers(0, n - 1))
         spec["eqs"][rw] = {"terms": [[rw, -1, 1.0]], "const": draw(st.sampled_from([0.02, -0.01, 0.05, 0.1])), "shock": 1.0}
     nv = 1
-    if spec["params"] and fam != "nl" and draw(st.integers(0, 2)) == 0:
-        nv = 2
+    if spec["params"] and fam != "nl" and draw(st.integers(0, 2 if rw is None else 1)) == 0:
+        nv = 2          # (every second growth model: growth rates that differ across variants)
         for p in spec["params"]:
             p["value"] = [p["value"], round(p["value"] * draw(st.sampled_from([0.5, 0.8, 1.1])), 6)]
     plan = "none"
